@@ -1,6 +1,6 @@
 (** C16 - property theorems (statements only; proofs live in the library files) *)
 From Coq Require Import ZArith NArith PArith List Bool.
-From Cohdl Require Import Vhdl.Value Vhdl.Syntax Vhdl.Sem Vhdl.DefAssign Vhdl.DeadVars Equiv.Explore Equiv.VhdlTS Equiv.RefTS Equiv.Monitor Equiv.StoreTS Models.Coro Models.StdSpecs.
+From Cohdl Require Import Vhdl.Value Vhdl.Syntax Vhdl.Sem Vhdl.DefAssign Vhdl.DeadVars Equiv.Explore Equiv.VhdlTS Equiv.RefTS Equiv.Monitor Equiv.StoreTS Models.Coro Models.StdSpecs Models.Lower Models.LowerProofs.
 Import ListNotations.
 
 Theorem C16_case_sound :
@@ -163,3 +163,35 @@ Theorem C16_divider_code_matches_model_all_durations : forall d mid alphabet fue
     traceA (sstep d mid) (power_up_s d) ins = traceB (dividerm_step D ds tas) (dividerm_init D ds tas) ins.
 Proof. exact dividerm_code_tie. Qed.
 Print Assumptions C16_divider_code_matches_model_all_durations.
+
+(** ** wait_for in the Gallina model of the lowering, for ALL constant durations
+
+    [Lower.lower] lowers [Wait n] the way std.wait_for / Waiter.wait_for are lowered: [await true] for n = 1,
+    otherwise [counter <<= n - 1] in the current state and a new loop-head state
+    [if counter /= 0 then counter <<= counter - 1 (stay) else <rest>] (the counter is a registered signal of
+    the target machine).  [Lower.in_grammar] admits [Wait n] for every n >= 1 anywhere in a program of the
+    C01 grammar (loops, branches, calls) except n = 1 as the very first action of the process; for all these
+    programs and all input sequences the lowered machine has the trace of the coroutine semantics, in which the
+    statement after [Wait n] runs exactly n clocks after the wait was reached. *)
+Theorem C16_lower_wait_correct :
+  forall p : stmt, in_grammar p = true ->
+  forall ins, traceB (mstepZ (lower p)) minitZ ins = traceB (ref_step p) rinit ins.
+Proof. exact lower_correct. Qed.
+Print Assumptions C16_lower_wait_correct.
+
+(** non-vacuity for every n >= 1: a wait after a statement is in the grammar *)
+Theorem C16_lower_wait_all_n :
+  forall n, (1 <= n)%Z ->
+    in_grammar (Seq (Eff 1) (Seq (Wait n) (Eff 2))) = true /\
+    forall ins, traceB (mstepZ (lower (Seq (Eff 1) (Seq (Wait n) (Eff 2))))) minitZ ins
+              = traceB (ref_step (Seq (Eff 1) (Seq (Wait n) (Eff 2)))) rinit ins.
+Proof. intros n H. split; [exact (wait_prog_in_grammar n H)|exact (wait_exact n H)]. Qed.
+Print Assumptions C16_lower_wait_all_n.
+
+(** the excluded case is the known finding: wait_for(1) as the very first action resumes in the same clock
+    in the code and in the model of the lowering; the coroutine semantics resumes one clock later *)
+Theorem C16_lower_wait1_first_refuted :
+  in_grammar wait1_first = false /\
+  exists ins, traceB (mstepZ (lower wait1_first)) minitZ ins <> traceB (ref_step wait1_first) rinit ins.
+Proof. exact lower_wait1_first_refuted. Qed.
+Print Assumptions C16_lower_wait1_first_refuted.
